@@ -154,6 +154,29 @@ METHODS = {
 }
 for _n, _ms in METHODS.items():
     EDGES[_n] = [('%s.%s' % (_n, m), m, (lambda o, m=m: getattr(o, m)())) for m in _ms]
+# The tables above are what the library offered when the check was written.  Conversions ADDED since (any function of
+# geodepy.angles named <notation>2<notation>, any angle-class method named after a notation) are discovered by name and explored
+# and judged like the others: a notation is a notation whichever function produced it.
+DISCOVERED = []
+
+
+def _discover():
+    import inspect
+    import re
+    known = {name for edges in EDGES.values() for name, _, _ in edges}
+    for n, f in sorted(vars(ga).items()):
+        m = re.match(r'^(rad|dec|hp|gon)2(rad|dec|hp|gon|deca|hpa|gona|dms|ddm)$', n)
+        if m and inspect.isfunction(f) and n not in known:
+            EDGES[m.group(1)].append((n, m.group(2), f))
+            DISCOVERED.append(n)
+    for key, cls in (('deca', ga.DECAngle), ('hpa', ga.HPAngle), ('gona', ga.GONAngle), ('dms', ga.DMSAngle), ('ddm', ga.DDMAngle)):
+        for mname in ('rad', 'dec', 'deca', 'hp', 'hpa', 'gon', 'gona', 'dms', 'ddm'):
+            if mname not in METHODS[key] and mname != key and callable(getattr(cls, mname, None)):
+                EDGES[key].append(('%s.%s' % (key, mname), mname, (lambda o, m=mname: getattr(o, m)())))
+                DISCOVERED.append('%s.%s' % (key, mname))
+
+
+_discover()
 N_EDGES = sum(len(v) for v in EDGES.values())
 
 
